@@ -777,7 +777,7 @@ Proof.
   rewrite firstn_app_exact' by reflexivity.
   replace (news ++ x0 :: x1 :: tail) with ((news ++ [x0; x1]) ++ tail) by norm_app.
   rewrite skipn_app_exact' by (rewrite app_length; cbn [length]; lia).
-  destruct b; cbn [wb_rev wb_len wb_ptrs] in *. subst. reflexivity.
+  destruct b as [br bl bp]; cbn [wb_rev wb_len wb_ptrs] in *. subst. reflexivity.
 Qed.
 
 (* ResourceRecord::serialise without the back-patch: RDLENGTH is the number of RDATA octets *)
@@ -854,3 +854,137 @@ Proof.
     exists (wb_len b1). split; auto.
     eapply RRAt_ext; [|exact R1]. exact e2.
 Qed.
+
+(* ------------------------------------------------------------------ *)
+(* 6. header and whole message                                         *)
+(* ------------------------------------------------------------------ *)
+
+(* the two flag octets of Header::serialise *)
+Definition hdr_flag (x : bool) (m : N) : N := if x then m else 0.
+Definition hdr_f1 (qr : bool) (op : N) (aa tc rd : bool) : N :=
+  N.lor (N.lor (N.lor (N.lor (hdr_flag qr HEADER_MASK_QR)
+                             (N.land HEADER_MASK_OPCODE (N.land (N.shiftl op HEADER_OFFSET_OPCODE) 255)))
+                      (hdr_flag aa HEADER_MASK_AA)) (hdr_flag tc HEADER_MASK_TC))
+        (hdr_flag rd HEADER_MASK_RD).
+Definition hdr_f2 (ra : bool) (rc : N) : N :=
+  N.lor (hdr_flag ra HEADER_MASK_RA) (N.land HEADER_MASK_RCODE (N.land (N.shiftl rc HEADER_OFFSET_RCODE) 255)).
+
+Lemma encode_header_eq h b :
+  encode_header h b =
+  write_u8 (hdr_f2 (h_ra h) (h_rcode h))
+    (write_u8 (hdr_f1 (h_qr h) (h_opcode h) (h_aa h) (h_tc h) (h_rd h)) (write_u16 (h_id h) b)).
+Proof. reflexivity. Qed.
+
+(* the RFC's reading of the flag octets (bit 7 = QR, bits 6..3 = OPCODE, ...) against the
+   code's masks: a sweep over all 2^4 * 16 and 2 * 16 combinations *)
+Definition chk_f1 (qr aa tc rd : bool) (op : N) : bool :=
+  let f1 := hdr_f1 qr op aa tc rd in
+  (f1 <? 256) && Bool.eqb qr (N.testbit f1 7) && (op =? (f1 / 8) mod 16)
+  && Bool.eqb aa (N.testbit f1 2) && Bool.eqb tc (N.testbit f1 1) && Bool.eqb rd (N.testbit f1 0).
+Definition chk_f2 (ra : bool) (rc : N) : bool :=
+  let f2 := hdr_f2 ra rc in
+  (f2 <? 256) && Bool.eqb ra (N.testbit f2 7) && (rc =? f2 mod 16).
+
+Lemma chk_f1_all qr aa tc rd op : op < 16 -> chk_f1 qr aa tc rd op = true.
+Proof.
+  intros H. destruct qr, aa, tc, rd;
+    (apply (N_lt_sweep (chk_f1 _ _ _ _) 16); [vm_compute; reflexivity | exact H]).
+Qed.
+Lemma chk_f2_all ra rc : rc < 16 -> chk_f2 ra rc = true.
+Proof.
+  intros H. destruct ra;
+    (apply (N_lt_sweep (chk_f2 _) 16); [vm_compute; reflexivity | exact H]).
+Qed.
+
+Lemma hdr_f1_spec qr aa tc rd op : op < 16 ->
+  let f1 := hdr_f1 qr op aa tc rd in
+  f1 < 256 /\ qr = N.testbit f1 7 /\ op = (f1 / 8) mod 16 /\ aa = N.testbit f1 2
+  /\ tc = N.testbit f1 1 /\ rd = N.testbit f1 0.
+Proof.
+  intros H. pose proof (chk_f1_all qr aa tc rd op H) as C. unfold chk_f1 in C.
+  repeat (apply andb_true_iff in C; destruct C as [C ?]).
+  cbn zeta. splits; try (now apply eqb_prop); [now apply N.ltb_lt | now apply N.eqb_eq].
+Qed.
+Lemma hdr_f2_spec ra rc : rc < 16 ->
+  let f2 := hdr_f2 ra rc in f2 < 256 /\ ra = N.testbit f2 7 /\ rc = f2 mod 16.
+Proof.
+  intros H. pose proof (chk_f2_all ra rc H) as C. unfold chk_f2 in C.
+  repeat (apply andb_true_iff in C; destruct C as [C ?]).
+  cbn zeta. splits; [now apply N.ltb_lt | now apply eqb_prop | now apply N.eqb_eq].
+Qed.
+
+(* Header::serialise on the empty buffer *)
+Lemma encode_header_ok h : wf_header h ->
+  wb_ok (encode_header h wb_empty) /\ wb_len (encode_header h wb_empty) = 4
+  /\ HeaderIs (wb_octets (encode_header h wb_empty)) h.
+Proof.
+  intros (Hid & Hop & Hrc). rewrite encode_header_eq.
+  destruct (hdr_f1_spec (h_qr h) (h_aa h) (h_tc h) (h_rd h) (h_opcode h) Hop) as (F1 & A1 & A2 & A3 & A4 & A5).
+  destruct (hdr_f2_spec (h_ra h) (h_rcode h) Hrc) as (F2 & B1 & B2).
+  set (f1 := hdr_f1 _ _ _ _ _) in *. set (f2 := hdr_f2 _ _) in *.
+  destruct (write_u16_ok (h_id h) wb_empty wb_ok_empty) as (ok1 & e1 & l1 & U1).
+  set (b1 := write_u16 (h_id h) wb_empty) in *.
+  destruct (write_u8_ok f1 b1 F1 ok1) as (ok2 & e2 & l2 & U2). set (b2 := write_u8 f1 b1) in *.
+  destruct (write_u8_ok f2 b2 F2 ok2) as (ok3 & e3 & l3 & U3). set (b3 := write_u8 f2 b2) in *.
+  change (wb_len wb_empty) with 0 in *.
+  splits; auto; try lia.
+  (* the octets of this 4-octet buffer are explicit, so the positional facts hold by computation *)
+  exists f1, f2. splits; auto.
+Qed.
+
+Lemma usize_to_u16_ok n v : usize_to_u16 n = Ok v -> v = n /\ n < 65536.
+Proof.
+  unfold usize_to_u16. destruct (n <? 65536) eqn:E; [|discriminate].
+  intros [= <-]. split; auto. now apply N.ltb_lt.
+Qed.
+
+(* The whole run of Message::to_octets, in one statement: the final buffer satisfies the
+   invariant, and its octets parse (by the grammar) as the message. *)
+Lemma encode_run m bs : wf_message m -> encode m = Ok bs ->
+  exists b, bs = wb_octets b /\ wb_ok b /\ Parses bs m.
+Proof.
+  intros (Hh & Hq & Han & Hns & Har). unfold encode.
+  destruct (usize_to_u16 (llen (m_questions m))) as [qd| | |] eqn:Eqd; cbn [bind]; try discriminate.
+  destruct (usize_to_u16 (llen (m_answers m))) as [an| | |] eqn:Ean; cbn [bind]; try discriminate.
+  destruct (usize_to_u16 (llen (m_authority m))) as [ns| | |] eqn:Ens; cbn [bind]; try discriminate.
+  destruct (usize_to_u16 (llen (m_additional m))) as [ar| | |] eqn:Ear; cbn [bind]; try discriminate.
+  apply usize_to_u16_ok in Eqd as [-> Hqd], Ean as [-> Hand], Ens as [-> Hnsd], Ear as [-> Hard].
+  destruct (encode_header_ok (m_header m) Hh) as (okh & lh & HH).
+  set (bh := encode_header (m_header m) wb_empty) in *.
+  destruct (write_u16_ok (llen (m_questions m)) bh okh) as (ok1 & e1 & l1 & U1).
+  set (c1 := write_u16 (llen (m_questions m)) bh) in *.
+  destruct (write_u16_ok (llen (m_answers m)) c1 ok1) as (ok2 & e2 & l2 & U2).
+  set (c2 := write_u16 (llen (m_answers m)) c1) in *.
+  destruct (write_u16_ok (llen (m_authority m)) c2 ok2) as (ok3 & e3 & l3 & U3).
+  set (c3 := write_u16 (llen (m_authority m)) c2) in *.
+  destruct (write_u16_ok (llen (m_additional m)) c3 ok3) as (ok4 & e4 & l4 & U4).
+  set (b0 := write_u16 (llen (m_additional m)) c3) in *.
+  destruct (encode_questions_ok (m_questions m) b0 ok4 Hq) as (okq & eq & Sq).
+  set (b1 := fold_left (fun acc q => encode_question q acc) (m_questions m) b0) in *.
+  destruct (encode_rrs (m_answers m) b1) as [b2| | |] eqn:E2; cbn [bind]; try discriminate.
+  destruct (encode_rrs (m_authority m) b2) as [b3| | |] eqn:E3; cbn [bind]; try discriminate.
+  destruct (encode_rrs (m_additional m) b3) as [b4| | |] eqn:E4; cbn [bind]; try discriminate.
+  intros [= <-].
+  destruct (encode_rrs_ok _ _ _ okq Han E2) as (okan & ean & San).
+  destruct (encode_rrs_ok _ _ _ okan Hns E3) as (okns & ens & Sns).
+  destruct (encode_rrs_ok _ _ _ okns Har E4) as (okar & ear & Sar).
+  exists b4. split; [reflexivity|]. split; [exact okar|]. unfold Parses. splits.
+  - eapply HeaderIs_ext; [|exact HH]. solve_ext.
+  - replace 4 with (wb_len bh) by lia. eapply u16At_ext; [|exact (U1 Hqd)]. solve_ext.
+  - replace 6 with (wb_len c1) by lia. eapply u16At_ext; [|exact (U2 Hand)]. solve_ext.
+  - replace 8 with (wb_len c2) by lia. eapply u16At_ext; [|exact (U3 Hnsd)]. solve_ext.
+  - replace 10 with (wb_len c3) by lia. eapply u16At_ext; [|exact (U4 Hard)]. solve_ext.
+  - exists (wb_len b1), (wb_len b2), (wb_len b3), (wb_len b4). splits.
+    + replace 12 with (wb_len b0) by lia. eapply SeqQ_ext; [|exact Sq]. solve_ext.
+    + eapply SeqRR_ext; [|exact San]. solve_ext.
+    + eapply SeqRR_ext; [|exact Sns]. solve_ext.
+    + exact Sar.
+Qed.
+
+(* DESIGN C04 T2 *)
+Theorem encode_parses m bs : wf_message m -> encode m = Ok bs -> Parses bs m.
+Proof. intros Hwf E. destruct (encode_run m bs Hwf E) as (b & _ & _ & P). exact P. Qed.
+
+(* the encoder emits octets *)
+Theorem encode_bytes m bs : wf_message m -> encode m = Ok bs -> Forall (fun b => b < 256) bs.
+Proof. intros Hwf E. destruct (encode_run m bs Hwf E) as (b & -> & ok & _). apply (ok_bytes b ok). Qed.
